@@ -1393,10 +1393,9 @@ func fixedCases() []*gCase {
 func nontrivial(o obsResult) bool { return len(o.Log) >= 2 }
 
 func stats(c *gal.Ctx, gc *gCase, o obsResult) {
-	switches, issues, skipped := 0, 0, 0
-	for i, e := range o.Log {
+	issues, skipped := 0, 0
+	for _, e := range o.Log {
 		issues += len(e.Issues)
-		_ = i
 		for j, a := range e.Actions {
 			if a[0] == aSetFlow && j+1 < len(e.Actions) {
 				skipped++
@@ -1404,9 +1403,6 @@ func stats(c *gal.Ctx, gc *gCase, o obsResult) {
 		}
 	}
 	if o.Flow != gc.Root {
-		switches = 1
-	}
-	if switches > 0 {
 		c.Count("runs ending in another flow")
 	}
 	if issues > 0 {
@@ -1415,7 +1411,7 @@ func stats(c *gal.Ctx, gc *gCase, o obsResult) {
 	if skipped > 0 {
 		c.Count("runs with actions listed after a SetFlow action")
 	}
-	if len(o.Measured) > 0 {
+	if len(o.Measured) > len(gc.Meas0) {
 		c.Count("runs with measurements")
 	}
 }
@@ -1432,7 +1428,7 @@ func one(c *gal.Ctx, kind string, gc *gCase) {
 }
 
 func main() {
-	c := gal.New("C09", header, 250)
+	c := gal.New("C09", header, 400)
 	for _, gc := range fixedCases() {
 		kind := "fixed/finish"
 		if gc.Steps >= 0 {
@@ -1441,7 +1437,7 @@ func main() {
 		one(c, kind, gc)
 	}
 	g := &gen{c: c}
-	n := c.Scale(2600, 26000)
+	n := c.Scale(8000, 40000)
 	for i := 0; i < n; i++ {
 		switch {
 		case i%5 == 4:
